@@ -297,6 +297,19 @@ GROUPS = ('data', 'structure', 'transform', 'dismantle')
 # ------------------------------------------------------------------------------------------------ the netlist clone
 def netlist_clone_case(ad, f, r):
     n = designs.build_api(ad)
+    # earlier element clones may still be alive when the netlist is cloned: a detached definition clone keeps children that sit in the
+    # reference sets of the original's definitions (documented bookkeeping of Definition.clone / Instance.clone)
+    alive = []
+    if r.random() < 0.35:
+        defs_ = [d for l in n.libraries for d in l.definitions if d.children]
+        if defs_:
+            try:
+                alive.append(r.choice(defs_).clone())
+                if r.random() < 0.5:
+                    alive.append(r.choice([i for d in defs_ for i in d.children]).clone())
+                f.stats['netlist_clones_with_live_element_clones'] = f.stats.get('netlist_clones_with_live_element_clones', 0) + 1
+            except Exception:
+                alive = []
     objs = irlib.closure([n])
     index = {id(o): i for i, o in enumerate(objs)}
     s0 = snap(objs, index)
